@@ -153,3 +153,9 @@ Theorem C15_source_encode_url : forall (O : oracles) (B : backend) (s : str),
   same_outcome (gen_encode_url O B s) (encode_url O B s).
 Proof. exact gen_encode_url_ok. Qed.
 Print Assumptions C15_source_encode_url.
+
+(** ... and with_path, one of the guards that decide when to normalise *)
+Theorem C15_source_with_path : forall (B : backend) (u : url) (p : str) (e kq kf : bool),
+  gen_with_path B u p e kq kf = with_path B u p e kq kf.
+Proof. exact gen_with_path_ok. Qed.
+Print Assumptions C15_source_with_path.
